@@ -7,7 +7,8 @@
 Require Import Bool List Arith Lia ZArith QArith Qcanon Ring_theory.
 From PV Require Import Lattice.
 From PV Require Import Outcome Fock Poly PolySem CAR AlgebraBasics.
-From PV Require Import PresetsSpec IndexHam PresetsBasics PresetsPrepare PresetsLeaves PresetsProofs PresetsTransport PresetsSU2.
+From PV Require Import PresetsSpec IndexHam PresetsConfig PresetsBasics PresetsPrepare PresetsLeaves PresetsProofs PresetsTransport PresetsSU2
+  PresetsAgreement.
 Import ListNotations.
 Local Open Scope nat_scope.
 
@@ -85,7 +86,7 @@ Example kanamori_applies :
 Proof.
   pose proof (addCoulombP3_denotes Qc qc0 qc1 Qcplus Qcmult Qcminus Qcopp qczero ring_ok_Qc qchalf qcid 8 nat Nat.eqb ex_idx
                 ex_m 0 2 2 (Q2Qc 2) qchalf (Q2Qc (-1)) eq_refl (le_n 2) (le_n 2) (ex_site_ok 0 ltac:(lia))) as D.
-  destruct D as (Dn & h & E & HA). exists h. split; [exact E|]. split; [exact HA|]. split.
+  destruct D as (Dn & (h & E & HA) & _). exists h. split; [exact E|]. split; [exact HA|]. split.
   - unfold Lattice.addCoulombP3 in E.
     eapply (addCoulombP_hermitian Qc qc0 qc1 Qcplus Qcmult Qcminus Qcopp qczero ring_ok_Qc qchalf qchalf_ok qcid 8 nat Nat.eqb ex_idx);
       try exact E; try reflexivity; try (intros; reflexivity); try lia.
@@ -106,7 +107,7 @@ Example ss_applies :
 Proof.
   pose proof (addSS_denotes Qc qc0 qc1 Qcplus Qcmult Qcminus Qcopp qczero ring_ok_Qc qchalf qcid 8 nat Nat.eqb ex_leqb_spec ex_idx
                 as_is ex_m 0 1 2 (Q2Qc (-3 # 4)) eq_refl eq_refl (ex_site_ok 0 ltac:(lia)) (ex_site_ok 1 ltac:(lia))) as D.
-  destruct D as (Dn & h & E & HA). exists h. split; [exact E|]. split; [exact HA|].
+  destruct D as (Dn & (h & E & HA) & _). exists h. split; [exact E|]. split; [exact HA|].
   refine (proj1 (addSS_su2 Qc qc0 qc1 Qcplus Qcmult Qcminus Qcopp qczero ring_ok_Qc qchalf qchalf_ok 8 nat ex_idx Nat.eqb ex_leqb_spec qcid as_is ex_sites
                   ex_m 0 1 2 (Q2Qc (-3 # 4)) h ex_sites_ok _ _ eq_refl eq_refl E)).
   - cbn; tauto.
@@ -121,6 +122,72 @@ Example raw_term6_applies :
     meq Qc 8 (cpq h) (term_matrix Qc qc0 qc1 Qcplus Qcmult Qcopp 8 nat ex_idx ex_term6).
 Proof.
   apply (raw_term_sound Qc qc0 qc1 Qcplus Qcmult Qcminus Qcopp qczero ring_ok_Qc 8 nat ex_idx).
+  - cbn. lia.
+  - unfold term_ok. cbn. repeat split; try reflexivity. repeat constructor.
+Qed.
+
+(** the magnetic splitting on site 0, mH = 3/4, in the variant the source text of this tree has, against the operator the
+    header of this tree documents: the theorem applies, and the operator is not the zero matrix
+    (<s| H |s> = 3/4 * (1 or 1/2) for the state s with only mode (site 0, orbital 0, up) occupied) *)
+Example magnetization_applies :
+  exists h, prep (lattice_of Qc nat ex_m (fst (addMagnetization_code nat Nat.eqb Qc vo ex_m 0 (Q2Qc (3 # 4))))) = Done h /\
+    meq Qc 8 (cpq h) (spec_magnetization Qc qc0 qc1 Qcplus Qcmult Qcminus qchalf nat ex_idx 0 2 (Q2Qc (3 # 4))) /\
+    cpq h [false; true; false; false; false; false; false; false] [false; true; false; false; false; false; false; false] <> qc0.
+Proof.
+  pose proof (addMagnetization_with_denotes Qc qc0 qc1 Qcplus Qcmult Qcminus Qcopp qczero ring_ok_Qc qchalf qcid 8 nat Nat.eqb ex_idx
+                Gen_MagnetizationCode.code_magnetization_half ex_m 0 2 (Q2Qc (3 # 4)) eq_refl (ex_site_ok 0 ltac:(lia))) as D.
+  destruct D as (Dn & (h & E & HA) & _). exists h. split; [exact E|]. split; [exact HA|].
+  rewrite (HA [false; true; false; false; false; false; false; false] [false; true; false; false; false; false; false; false] eq_refl eq_refl).
+  intro H. apply (f_equal this) in H. vm_compute in H. discriminate.
+Qed.
+
+(** [storage_ok] and [storage_bounded] (hypotheses of [prepare_after_push] and of the third clause of [denotes]) hold for a
+    lattice that already holds a term, and that lattice is not empty *)
+Example nonempty_lattice_hypotheses :
+  storage_ok Qc 8 nat ex_idx (lattice_of Qc nat ex_m [ex_term6]) /\
+  storage_bounded Qc nat (lattice_of Qc nat ex_m [ex_term6]) /\
+  getTerms nat Qc (lattice_of Qc nat ex_m [ex_term6]) 6 = [ex_term6].
+Proof.
+  split; [|split].
+  - apply storage_ok_lattice_of. constructor; [|constructor].
+    unfold term_ok. cbn. repeat split; try reflexivity. repeat constructor.
+  - apply storage_bounded_push_all. apply storage_bounded_init.
+  - reflexivity.
+Qed.
+
+(** adding the exchange term to that lattice: the third clause of [denotes] applies *)
+Example ss_added_to_nonempty_lattice :
+  exists h h', prep (lattice_of Qc nat ex_m [ex_term6]) = Done h /\
+    prep (push_all nat Qc (fst (Lattice.addSS nat Nat.eqb Qc vo as_is ex_m 0 1 (Q2Qc (-3 # 4)))) (lattice_of Qc nat ex_m [ex_term6])) = Done h' /\
+    meq Qc 8 (cpq h') (m_add Qc Qcplus (cpq h) (spec_ss Qc qc0 qc1 Qcplus Qcmult Qcminus Qcopp qchalf 8 nat ex_idx 0 1 2 (Q2Qc (-3 # 4)))).
+Proof.
+  pose proof (addSS_denotes Qc qc0 qc1 Qcplus Qcmult Qcminus Qcopp qczero ring_ok_Qc qchalf qcid 8 nat Nat.eqb ex_leqb_spec ex_idx
+                as_is ex_m 0 1 2 (Q2Qc (-3 # 4)) eq_refl eq_refl (ex_site_ok 0 ltac:(lia)) (ex_site_ok 1 ltac:(lia))) as D.
+  destruct D as (_ & _ & Hadd). destruct nonempty_lattice_hypotheses as (H1 & H2 & _).
+  exact (Hadd _ H1 H2).
+Qed.
+
+(** the two agreement facts hold on this tree (they are the hypotheses under which Properties_C04 type-checks) *)
+Example agreement_holds : cfg_fixed = true /\ cfg_mag_half = cfg_doc_half.
+Proof. exact cfg_summary. Qed.
+
+(** a list of raw terms closed under adjoints that is not empty: the 6-operator term and its conjugate
+    (hypothesis [Permutation (map term_adj ts) ts] of [adjoint_closed_hermitian]); [raw_term_with_hc_hermitian] applies *)
+Example adjoint_closed_list :
+  Permutation.Permutation (map (term_adj Qc qcid nat) [ex_term6; term_adj Qc qcid nat ex_term6]) [ex_term6; term_adj Qc qcid nat ex_term6] /\
+  term_adj Qc qcid nat ex_term6 <> ex_term6.
+Proof.
+  split.
+  - cbn [map]. replace (term_adj Qc qcid nat (term_adj Qc qcid nat ex_term6)) with ex_term6 by reflexivity.
+    apply Permutation.perm_swap.
+  - intro H. apply (f_equal (fun t => t_orbs t)) in H. cbn in H. discriminate.
+Qed.
+
+Example raw_term6_with_hc_applies :
+  exists h, prep (lattice_of Qc nat ex_m [ex_term6; term_adj Qc qcid nat ex_term6]) = Done h /\ m_hermitian Qc qcid 8 (cpq h).
+Proof.
+  apply (raw_term_with_hc_hermitian Qc qc0 qc1 Qcplus Qcmult Qcminus Qcopp qczero ring_ok_Qc qcid 8 nat ex_idx);
+    try reflexivity; try (intros; reflexivity).
   - cbn. lia.
   - unfold term_ok. cbn. repeat split; try reflexivity. repeat constructor.
 Qed.
